@@ -1,0 +1,34 @@
+//! C20: run the (crate-private) `Base` plugin's `pre_create_transform` in isolation.
+//!
+//! Through the full create path the reserved-range test of the plugin is shadowed by the
+//! access-control module (which denies the same uuids earlier), so the harness needs to
+//! call the plugin directly to tie its model of the plugin to the code.
+
+use crate::plugins::Plugins;
+use crate::prelude::*;
+
+/// Runs `Base::pre_create_transform` on the entries of `ce` (after assigning the
+/// transaction's change id exactly as `QueryServerWriteTransaction::create` does).
+/// On success returns, per candidate in order, its single uuid (if it has exactly one)
+/// and whether the plugin left the `builtin` class on it.
+pub fn base_pre_create_transform(
+    qs: &mut QueryServerWriteTransaction<'_>,
+    ce: &CreateEvent,
+) -> Result<Vec<(Option<Uuid>, bool)>, OperationError> {
+    let cid = qs.verif_cid();
+    let mut cand: Vec<EntryInvalidNew> = ce
+        .entries
+        .iter()
+        .map(|e| e.clone().assign_cid(cid.clone(), qs.get_schema()))
+        .collect();
+    Plugins::verif_base_pre_create_transform(qs, &mut cand, ce)?;
+    Ok(cand
+        .iter()
+        .map(|e| {
+            (
+                e.get_ava_single_uuid(Attribute::Uuid),
+                e.attribute_equality(Attribute::Class, &EntryClass::Builtin.into()),
+            )
+        })
+        .collect())
+}
